@@ -14,5 +14,6 @@ CONSTANTS
   CANON = TRUE
   Groups = TRUE
   CheckUpdates = TRUE
+  CheckGraph = FALSE
 SYMMETRY Symm
 INVARIANT NoStale
